@@ -87,6 +87,8 @@ package store
 //@   modifies gotWantHasO, gotFound, gotGiven
 //@   ensures [C06] sub != nil ==> gotWantHasO == ((sub.ModeWant & types.ModeOwner) != 0)
 //@   ensures [C07] gotFound == (sub != nil) && (sub != nil ==> gotGiven == sub.ModeGiven)
+// (C13, assumed of the store: subscription rows exist only for topics that were created, and those have well-formed names)
+//@   ensures [C13] rows_only_for_created_topics: sub != nil ==> len(topic) >= 3 && (hasPrefix(topic, "usr") || hasPrefix(topic, "p2p") || hasPrefix(topic, "grp") || hasPrefix(topic, "chn") || hasPrefix(topic, "fnd") || hasPrefix(topic, "sys"))
 
 // C13: a credential validator registered under a configured name exists (assumed of the store: main() refuses to start
 // when a configured validator is missing, main.go:495).
